@@ -4,9 +4,11 @@ C01 — complex algorithms.  Theorems about the programs regenerated from the cu
 definitions).  The ULP accuracy clauses are decided by search (fav/props/c01.py).
 -/
 import FAVerif.Generated.C01
+import FAVerif.IR.EvalQ
+import FAVerif.Lemmas.RelErr
 
 namespace FAVerif.Props.C01
-open FAVerif.IR FAVerif.FP FAVerif.Gen.C01
+open FAVerif.IR FAVerif.FP FAVerif.FPQ FAVerif.Gen.C01
 
 /-- Every regenerated program is well formed: each argument refers to an earlier node, inputs
 are in range, outputs exist. -/
@@ -21,5 +23,63 @@ theorem generated_shape :
       p.2.nIn = 2 ∧ (p.2.fmt = binary32 ∨ p.2.fmt = binary64) ∧
       (p.2.outs.length = 2 ∨ (p.1.startsWith "absolute" ∧ p.2.outs.length = 1)) := by
   decide +kernel
+
+/-! ### A first accuracy theorem: complex `square` -/
+
+/-- the regenerated complex `square`, over ℚ with an abstract rounding `r`: the real part is
+RN(RN(x−y)·RN(y+x)) — or exactly 0 when |x| = |y| — and the imaginary part RN(2·RN(y·x)). -/
+theorem square_evalQ (r : ℚ → ℚ) (x y : ℚ) :
+    square_c64.evalQ r [x, y] =
+      some [if (if x < 0 then -x else x) = (if y < 0 then -y else y) then 0 else r (r (x - y) * r (y + x)), r (2 * r (y * x))] ∧
+    square_c128.evalQ r [x, y] =
+      some [if (if x < 0 then -x else x) = (if y < 0 then -y else y) then 0 else r (r (x - y) * r (y + x)), r (2 * r (y * x))] := by
+  have c32 : (decode ⟨24, 8⟩ 1073741824).toRat? = some 2 := by decide +kernel
+  have c64 : (decode ⟨53, 11⟩ 4611686018427387904).toRat? = some 2 := by decide +kernel
+  have z32 : (decode ⟨24, 8⟩ 0).toRat? = some 0 := by decide +kernel
+  have z64 : (decode ⟨53, 11⟩ 0).toRat? = some 0 := by decide +kernel
+  constructor
+  · simp only [Prog.evalQ, evalQ, square_c64]
+    simp [evalNodesQ, evalNodeQ, c32, z32, q2b]
+  · simp only [Prog.evalQ, evalQ, square_c128]
+    simp [evalNodesQ, evalNodeQ, c64, z64, q2b]
+
+/-- **Accuracy of complex `square`** (ℚ model: any precision p ≥ 2, any emin, any round-to-nearest;
+x, y representable; no overflow).  With u = 2^−p:
+* if |x| = |y| the real part is exactly x² − y² = 0;
+* otherwise, when x − y, y + x and the product of their roundings are in the normal range, the real
+  part errs by at most ((1+u)³ − 1)·|x² − y²| (< 3.01 u relative: within 4 ULP of the correctly rounded
+  value);
+* when x·y is in the normal range the imaginary part errs by at most u·|2xy| (1 ULP). -/
+theorem square_accuracy (q : QFmt) (r : ℚ → ℚ) (hr : IsRN q r) (x y : ℚ) :
+    let re := if (if x < 0 then -x else x) = (if y < 0 then -y else y) then 0 else r (r (x - y) * r (y + x))
+    let im := r (2 * r (y * x))
+    ((if x < 0 then -x else x) = (if y < 0 then -y else y) → re = x ^ 2 - y ^ 2) ∧
+    ((if x < 0 then -x else x) ≠ (if y < 0 then -y else y) →
+      2 ^ (q.emin + q.p - 1) ≤ |x - y| → 2 ^ (q.emin + q.p - 1) ≤ |y + x| → 2 ^ (q.emin + q.p - 1) ≤ |r (x - y) * r (y + x)| →
+      |re - (x ^ 2 - y ^ 2)| ≤ ((1 + uro q) ^ 3 - 1) * |x ^ 2 - y ^ 2|) ∧
+    (2 ^ (q.emin + q.p - 1) ≤ |y * x| → Rep q (2 * r (y * x)) → |im - 2 * x * y| ≤ uro q * |2 * x * y|) := by
+  intro re im
+  refine ⟨fun h => ?_, fun h h1 h2 h3 => ?_, fun h1 h2 => ?_⟩
+  · have hre : re = 0 := by simp only [re, h, if_true]
+    rw [hre]
+    have : |x| = |y| := by
+      have e1 : (if x < 0 then -x else x) = |x| := by split <;> [rw [abs_of_neg ‹_›]; rw [abs_of_nonneg (not_lt.mp ‹_›)]]
+      have e2 : (if y < 0 then -y else y) = |y| := by split <;> [rw [abs_of_neg ‹_›]; rw [abs_of_nonneg (not_lt.mp ‹_›)]]
+      rw [e1, e2] at h; exact h
+    have := sq_eq_sq_iff_abs_eq_abs x y |>.mpr this
+    linarith
+  · have hre : re = r (r (x - y) * r (y + x)) := by simp only [re, h, if_false]
+    rw [hre]
+    have := prod_of_rounded_err hr (Or.inr h1) (Or.inr h2) (Or.inr h3)
+    have e : (x - y) * (y + x) = x ^ 2 - y ^ 2 := by ring
+    rw [e] at this; exact this
+  · show |r (2 * r (y * x)) - 2 * x * y| ≤ _
+    rw [rn_id hr h2]
+    have := rn_rel_err hr (Or.inr h1)
+    have e : 2 * r (y * x) - 2 * x * y = 2 * (r (y * x) - y * x) := by ring
+    rw [e, abs_mul, show 2 * x * y = 2 * (y * x) by ring, abs_mul]
+    have h2pos : |(2 : ℚ)| = 2 := by norm_num
+    rw [h2pos]
+    nlinarith [abs_nonneg (r (y * x) - y * x), abs_nonneg (y * x)]
 
 end FAVerif.Props.C01
